@@ -45,6 +45,12 @@ def confirm(seeddir, wt):
     res["suite_passes"] = ("FAIL" not in out) and ("ok" in out)
     res["suite_tail"] = out[-600:]
     demo = meta.get("demo_cmd", "")
+    if "demo_test.go" not in demo:
+        # the command does not place the demonstration itself: put it into the package it runs
+        pk = re.findall(r"\./([a-z]+)/?(?=[\s'\"]|$)", demo)
+        if pk:
+            demo = "cp %s/demo_test.go %s/%s/zz_demo_test.go && %s" % (seeddir, wt, pk[-1], demo)
+            meta["demo_cmd"] = demo
     m = re.search(r"cp \S*demo_test\.go (\S+)", demo)
     target = m.group(1) if m else None
     rc, out = sh(demo, cwd=wt, timeout=1200)
